@@ -17,3 +17,33 @@ RY_BOHR3_TO_GPA = RY_J / BOHR_M ** 3 / 1e9   # GPa per (Ry / bohr^3)
 BOHR3_TO_ANG3 = (BOHR_M * 1e10) ** 3
 RY_TO_EV = RY_EV
 CONST_RTOL = 1e-7
+
+
+# ---------------------------------------------------------------------------------------------------------------------------
+# Unit factors as the dependency `pint` defines them (the package converts with a pint registry; its CODATA vintage differs from the
+# literals above by 2e-9).  A registry of the harness's own is used - nothing of cij is involved - and the literals above must
+# agree with it to 1e-8 (a wrong power or a wrong unit is off by orders of magnitude).
+_PINT = None
+
+
+def pint_factor(unit_from: str, unit_to: str) -> float:
+    global _PINT
+    if _PINT is None:
+        import pint
+        _PINT = pint.UnitRegistry()
+    return float(_PINT.Quantity(1.0, unit_from).to(unit_to).magnitude)
+
+
+def checked_factor(unit_from: str, unit_to: str, literal: float) -> float:
+    f = pint_factor(unit_from, unit_to)
+    if not abs(f / literal - 1.0) <= 1e-8:
+        raise RuntimeError(f"pint's factor {unit_from} -> {unit_to} = {f!r} disagrees with the literal {literal!r}")
+    return f
+
+
+def ry_bohr3_to_gpa() -> float:
+    return checked_factor("rydberg / bohr ** 3", "GPa", RY_BOHR3_TO_GPA)
+
+
+def bohr3_to_ang3() -> float:
+    return checked_factor("bohr ** 3", "angstrom ** 3", BOHR3_TO_ANG3)
